@@ -28,7 +28,7 @@ def gen_case(rng):
             open_.append(eid)
         else:
             e = open_.pop(rng.randrange(len(open_)))
-            ops.append("exit e=%d" % e)
+            ops.append("exit e=%d%s" % (e, " err=1" if rng.random() < 0.25 else ""))   # a traced error must not change admission/accounting
             if rng.random() < 0.7:
                 eid += 1
                 ops.append("build e=%d res=%s batch=1 dir=out" % (eid, rng.choice(res)))
@@ -79,7 +79,7 @@ def hs_case(rng):
             open_.append(eid)
         else:
             e = open_.pop(rng.randrange(len(open_)))
-            ops.append("exit e=%d" % e)
+            ops.append("exit e=%d%s" % (e, " err=1" if rng.random() < 0.25 else ""))   # a traced error must not change admission/accounting
         if rng.random() < 0.15:
             ops.append("adv ms=%d" % rng.choice([1, 500, 1500]))
     return ops
